@@ -94,6 +94,18 @@ impl SymbolTable {
         self.contexts.len() == 1
     }
 
+    /// The number of symbols declared at the top level of the global context
+    pub fn checkpoint(&self) -> usize {
+        self.contexts[0].symbols[0].len()
+    }
+
+    /// Returns to the top level of the global context as it was when the given checkpoint was taken
+    pub fn rollback(&mut self, checkpoint: usize) {
+        self.contexts.truncate(1);
+        self.contexts[0].symbols.truncate(1);
+        self.contexts[0].symbols[0].truncate(checkpoint);
+    }
+
     /// Create a new context to define symbols in.
     /// This will always be a local context (as there is only one global context).
     pub fn new_context(&mut self) {
